@@ -159,10 +159,15 @@ class ObjFlow:
                     # the same, with the derived `clone` of the struct written out field by field
                     base = fv[2][0][1]
                     continue
+                if fv[0] == "field" and fv[2] == self.prefix + fname and fv[1][0] in ("param", "local") and (self.fn.body.local_ty(fv[1][1]) or "").split("<")[0].endswith(self.adt):
+                    # `Message { to: leader, ..m }`: the fields not named are moved out of another object of the type
+                    base = fv[1]
+                    continue
                 st[fname] = self.vid(fv)
             if base is not None and at is not None and self.depth < 3 and base != self.D:
+                self.literal_base = base
                 try:
-                    src = ObjFlow(self.prog, self.fn, base, self.adt, UNINIT, self.depth + 1)
+                    src = ObjFlow(self.prog, self.fn, base, self.adt, UNINIT if base[0] == "local" else UNCHANGED, self.depth + 1)
                     sts = src.states_at(at)
                 except RecursionError:
                     sts = None
@@ -531,7 +536,8 @@ def object_states(prog, fn, obj_expr, at, adt="Message"):
                 return None, "unknown"
             if d not in out:
                 out.append(d)
-        return (out or None), "literal"
+        lb = getattr(fl, "literal_base", None)
+        return (out or None), ("literal-of-param:%d" % lb[1] if lb is not None and lb[0] == "param" else "literal")
     if e[0] == "param":
         fl = ObjFlow(prog, fn, e, adt, UNCHANGED)
         return fl.states_at(at), "in-place(param)"
@@ -563,6 +569,10 @@ def send_templates(prog, send_suffix="RaftCore::send", arg_index=1, adt="Message
         if not sts:
             out.append(Template(s.fn, s, obj, {"*": ("opaque", "unknown object")}, via))
             continue
+        if via.startswith("literal-of-param:"):
+            # a received message passed on with some fields replaced: the object is still that parameter
+            pi = int(via.split(":")[1])
+            obj = ("param", pi, s.fn.body.local_name(pi))
         for st in sts:
             out.append(Template(s.fn, s, obj, st, via, len(sts)))
     out = _instantiate_helpers(prog, out)
